@@ -195,6 +195,59 @@ theorem C02_multipart_lists_only_accepted (max : Nat) (parts : List Part) :
       obtain ⟨q, hq, h⟩ := ih e he
       exact ⟨q, by simp [hq], h⟩
 
+/-- completeness of the multipart response: when every part has a parsable name and is accepted,
+every part is listed, in request order, with the size of what was stored -/
+theorem C02_multipart_all_accepted (max : Nat) (parts : List Part)
+    (h : ∀ p ∈ parts, p.parses = true ∧ (receive max p.supported p.matches_ p.src).isAccepted = true) :
+    multipart max parts = parts.map (fun p => (p.key, p.src.total.length)) := by
+  induction parts with
+  | nil => rfl
+  | cons p ps ih =>
+    obtain ⟨hp, ha⟩ := h p (by simp)
+    have ih' := ih (fun q hq => h q (by simp [hq]))
+    unfold multipart
+    simp only [hp, Bool.not_true, Bool.false_eq_true, if_false, List.map_cons]
+    cases hr : receive max p.supported p.matches_ p.src with
+    | accepted d =>
+      obtain ⟨_, _, _, _, hst⟩ := (C02_accept_iff max p.supported p.matches_ p.src d).mp hr
+      simp only [ih', hst]
+    | corrupt => simp [hr, Res.isAccepted] at ha
+    | tooBig => simp [hr, Res.isAccepted] at ha
+    | srcErr => simp [hr, Res.isAccepted] at ha
+    | badHash => simp [hr, Res.isAccepted] at ha
+
+/-- the handler stops at the first failing part: nothing after it is received or listed -/
+theorem C02_multipart_stops_at_first_failure (max : Nat) (pre : List Part) (bad : Part) (post : List Part)
+    (hpre : ∀ p ∈ pre, p.parses = true ∧ (receive max p.supported p.matches_ p.src).isAccepted = true)
+    (hbad : bad.parses = true ∧ (receive max bad.supported bad.matches_ bad.src).isAccepted = false) :
+    multipart max (pre ++ bad :: post) = pre.map (fun p => (p.key, p.src.total.length)) := by
+  induction pre with
+  | nil =>
+    obtain ⟨hp, ha⟩ := hbad
+    simp only [List.nil_append, List.map_nil]
+    unfold multipart
+    simp only [hp, Bool.not_true, Bool.false_eq_true, if_false]
+    cases hr : receive max bad.supported bad.matches_ bad.src with
+    | accepted d => simp [hr, Res.isAccepted] at ha
+    | corrupt => rfl
+    | tooBig => rfl
+    | srcErr => rfl
+    | badHash => rfl
+  | cons p ps ih =>
+    obtain ⟨hp, ha⟩ := hpre p (by simp)
+    have ih' := ih (fun q hq => hpre q (by simp [hq]))
+    simp only [List.cons_append, List.map_cons]
+    unfold multipart
+    simp only [hp, Bool.not_true, Bool.false_eq_true, if_false]
+    cases hr : receive max p.supported p.matches_ p.src with
+    | accepted d =>
+      obtain ⟨_, _, _, _, hst⟩ := (C02_accept_iff max p.supported p.matches_ p.src d).mp hr
+      simp only [ih', hst]
+    | corrupt => simp [hr, Res.isAccepted] at ha
+    | tooBig => simp [hr, Res.isAccepted] at ha
+    | srcErr => simp [hr, Res.isAccepted] at ha
+    | badHash => simp [hr, Res.isAccepted] at ha
+
 /-- the cap in the source is the documented 16 MiB -/
 theorem C02_gen_max_is_16MiB : Gen.maxBlobSize = 16 * 1024 * 1024 := by decide
 
